@@ -774,6 +774,9 @@ func b2u(v bool) uint64 {
 func eval1(t *Term, m Model, memo map[*Term]uint64) (uint64, bool) {
 	switch t.Op {
 	case OVar:
+		if t.Sort.K == KBV {
+			return m[t.Name] & mask(t.Sort.W), true
+		}
 		return m[t.Name], true
 	case OConst:
 		return t.U, true
